@@ -25,16 +25,27 @@ type (
 )
 
 func (ds *dataStore) save(fileName string) (err error) {
-	// open output file
-	f, err := os.Create(fileName)
+	// write to a temporary file; it replaces the live file only after it is
+	// complete, so an interrupted save leaves the previous snapshot intact
+	tmpName := fileName + ".tmp"
+	f, err := os.Create(tmpName)
 	if err != nil {
 		return
 	}
 
 	// close f on exit and check for its returned error
 	defer func() {
-		if err := f.Close(); err != nil {
-			panic(err)
+		if err == nil {
+			err = f.Sync()
+		}
+		if closeErr := f.Close(); closeErr != nil {
+			panic(closeErr)
+		}
+		if err == nil {
+			err = os.Rename(tmpName, fileName)
+		}
+		if err != nil {
+			os.Remove(tmpName)
 		}
 	}()
 
